@@ -403,8 +403,10 @@ def run_pipeline(case):
             break
         except InjectedError as e:
             escaped.append(e.name)
+            sched._is_enabled = False   # start() leaves the flag set when an exception escapes; reset so the run continues
         except Exception as e:  # noqa  library exceptions escaping into the scheduler
             escaped.append(type(e).__name__)
+            sched._is_enabled = False
     return {"subscribers": {k: _plain(r.log) for k, r in recs.items()}, "escaped": escaped[:5]}
 
 
